@@ -763,7 +763,11 @@ class SymFloat:
         if isinstance(o, SymInt):
             # Python compares int with float exactly; the double conversion used here is exact only up to 2**53:
             # stated bound for mixed int/float comparisons
-            CUR.assume(z3.And(o.e >= -(2 ** 53), o.e <= 2 ** 53))
+            b = getattr(o, "bv64", None)
+            if b is not None:
+                CUR.assume(z3.And(b >= -(2 ** 53), b <= 2 ** 53))      # signed bit-vector comparison: stays Int-free
+            else:
+                CUR.assume(z3.And(o.e >= -(2 ** 53), o.e <= 2 ** 53))
         z = fpval(o) if not isinstance(o, SymInt) else int_to_double_term(o)
         if z is NotImplemented:
             return NotImplemented
